@@ -244,6 +244,136 @@ def replay_adv(m, Kp, V, tm1, lens, width):
     return None
 
 
+def adv_p_vc():
+    """P rung: ctc_prefix_search_advance for SYMBOLIC batch size, old width K', vocabulary V, prefix length S and beam width.
+    Assumed contracts (vf/pyvc/symtensor.py): top-k over a symbolic extent (-inf below every finite value), sum and any over a symbolic
+    extent, tensors as index functions. For a skolem batch element and skolem slots below K = min(width, K' (V + 1)), with
+    index = the top-k index of the slot, keep = index >= K' V, source = index - K' V (keep) or index div V, token = index mod V:
+      - the slot reports exactly that source / keep flag;
+      - keep:   b' = (nb + b)[source] * blank,  nb' = nb[source] * nonext[last(source)] + SUM_j merged(j, source), where the j-th summand
+                is the extension mass of prefix j by its matching token when prefix j + token IS prefix `source` (one longer, j a prefix
+                of it) and 0 otherwise  (the summand is checked element-wise, the sum is the assumed partial-sum contract);
+      - extend: b' = 0,  nb' = -inf if some beam prefix equals source + token (any-contract over the old beam; its element "prefix j
+                is one longer, source is a prefix of it, and its next token is the token" is checked element-wise), else (nb[source] * [token != last(source)] + b[source]) * ext;
+      - tokens / length / last token of the slot are the source's, grown by the token when extending;
+      - slots are best-first by total mass, two different slots hold different candidates, slots from K on are fillers.
+    The new prefix-relation matrix is left to the S rung."""
+    import pydrobert.torch._decoding as D
+    from vf.pyvc import symtensor as stn
+
+    N, KP, V, S, W, N0, K0, K1, J0, T0 = z3.Ints("N old_width V S width n0 k0 k1 j0 t0")
+    fn = lambda name, *sorts: z3.Function(name, *sorts)
+    Iz, Rz, Bz = z3.IntSort(), z3.RealSort(), z3.BoolSort()
+    EXT, NONEXT, BLANK = fn("ext", Iz, Iz, Iz, Rz), fn("nonext", Iz, Iz, Rz), fn("blank", Iz, Rz)
+    NB, B = fn("nb_prev", Iz, Iz, Rz), fn("b_prev", Iz, Iz, Rz)
+    Y, LAST, LENS, ISP = fn("y_prev", Iz, Iz, Iz, Iz), fn("last_prev", Iz, Iz, Iz), fn("lens_prev", Iz, Iz, Iz), fn("is_prefix_prev", Iz, Iz, Iz, Bz)
+    M_ = KP * V
+    KK = z3.If(W <= KP * (V + 1), W, KP * (V + 1))
+    clampv = lambda x: z3.If(x < 0, 0, z3.If(x > V - 1, V - 1, x))
+    lastc = lambda k: clampv(LAST(N0, k))
+    exact = lambda j, k: z3.And(LENS(N0, j) + 1 == LENS(N0, k), ISP(N0, j, k))
+    tomatch = lambda j, k: clampv(Y(z3.If(LENS(N0, j) > S - 1, S - 1, LENS(N0, j)), N0, k))
+    extmass = lambda k, v: (z3.If(v == lastc(k), z3.RealVal(0), NB(N0, k)) + B(N0, k)) * EXT(N0, k, v)
+    n_, k_ = z3.Ints("n_q k_q")
+    name = "ctc_prefix_search_advance[symbolic N, old width, V, S, width]"
+
+    def thunk(I):
+        I.stubs.update(stn.stubs())
+        z = ip.to_z3
+        mk3 = lambda f, sh, dt: stn.ST(sh, lambda a, b, c: f(z(a), z(b), z(c)), dt)
+        mk2 = lambda f, sh, dt: stn.ST(sh, lambda a, b: f(z(a), z(b)), dt)
+        ext, nonext, blank = mk3(EXT, (N, KP, V), "float"), mk2(NONEXT, (N, V), "float"), stn.ST((N,), lambda a: BLANK(z(a)), "float")
+        nb, b = mk2(NB, (N, KP), "float"), mk2(B, (N, KP), "float")
+        y, last, lens, isp = mk3(Y, (S, N, KP), "long"), mk2(LAST, (N, KP), "long"), mk2(LENS, (N, KP), "long"), mk3(ISP, (N, KP, KP), "bool")
+
+        def trunc_divide(I2, a, k):
+            x, d = a
+            return x._bin(I2, __import__("ast").FloorDiv(), d, False)  # indices are non-negative: trunc = floor
+
+        I.contracts["pydrobert.torch._compat.trunc_divide"] = trunc_divide
+        lens_at = lambda a, c: z3.Implies(z3.And(0 <= a, a < N, 0 <= c, c < KP), z3.And(0 <= LENS(a, c), LENS(a, c) <= S))
+
+        def hook(ii):  # the length bounds at a new position and at the source of the slot at that position
+            out = [lens_at(a, c) for a in ii for c in ii if a is not c]
+            for tk_ in I.ex.ghost.get("topks", []):
+                for a in ii:
+                    for c in ii:
+                        if a is not c:
+                            ix = tk_["IDX"](a, c)
+                            out.append(lens_at(a, z3.If(ix >= M_, ix - M_, ix / V)))
+            return out
+
+        I.ex.ghost["skolem_hooks"] = [hook]
+        out = I.call(D.ctc_prefix_search_advance, [(ext, nonext, blank), W, (nb, b), y, last, lens, isp], {})
+        tk = I.ex.ghost["topks"][-1]
+        for x in (tk["at"](N0, K0), tk["at"](N0, K1), tk["distinct"](N0, K0, K1), tk["distinct"](N0, K1, K0), tk["ordered"](N0, K0, K1)):
+            I.ex.instance(x)
+        sums = [x for x in I.ex.ghost.get("sums", []) if x.get("kind") == "sum"]
+        I.ex.ghost.update(tk=tk, sums=sums, anys=I.ex.ghost.get("anys", []))
+        return out
+
+    def post(p):
+        if not api.returns(p) or not isinstance(p.value, tuple) or len(p.value) != 7:
+            return False
+        y2, last2, lens2, probs2, isp2, src2, non2 = p.value
+        nb2, b2 = probs2
+        g = p.ghost
+        if len(g["sums"]) != 1 or len(g["anys"]) != 1:
+            return [("one_merging_sum_and_one_match_test", z3.BoolVal(False))]
+        sm, an, tk = g["sums"][0], g["anys"][0], g["tk"]
+        IDX = tk["IDX"]
+        idx0, idx1 = IDX(N0, K0), IDX(N0, K1)
+        keep = lambda ix: ix >= M_
+        srcof = lambda ix: z3.If(keep(ix), ix - M_, ix / V)
+        tokof = lambda ix: ix % V
+        s0, w0 = srcof(idx0), tokof(idx0)
+        real0, real1 = z3.And(0 <= K0, K0 < KK), z3.And(0 <= K1, K1 < KK)
+        Bq = lambda c: z3.BoolVal(c) if isinstance(c, bool) else c
+        cell = lambda t, *ix: ct.ng_split(t.elem(*ix))
+        f_nb, v_nb = cell(nb2, N0, K0)
+        f_b, v_b = cell(b2, N0, K0)
+        f_nb, f_b, v_nb, v_b = Bq(f_nb), Bq(f_b), ip.to_z3(v_nb), ip.to_z3(v_b)
+        tot = lambda k: ct.NegGuarded(z3.Or(Bq(cell(nb2, N0, k)[0]), Bq(cell(b2, N0, k)[0])), ip.to_z3(cell(nb2, N0, k)[1]) + ip.to_z3(cell(b2, N0, k)[1]))
+        has_match = an["B"](N0, s0, w0)  # the code's match test at (source, token); its meaning is checked element-wise below
+        A0, V0 = z3.Ints("a0 v0")
+        el = an["el"]([N0, A0, V0], J0)
+        shapes = z3.And(ip.to_z3(y2.shape[0]) == S + 1, ip.to_z3(y2.shape[2]) == W, ip.to_z3(nb2.shape[1]) == W, ip.to_z3(b2.shape[1]) == W, ip.to_z3(src2.shape[1]) == W, ip.to_z3(non2.shape[1]) == W, ip.to_z3(lens2.shape[1]) == W)
+        grown = z3.And(ip.to_z3(lens2.elem(N0, K0)) == LENS(N0, s0) + 1, ip.to_z3(last2.elem(N0, K0)) == w0, ip.to_z3(y2.elem(LENS(N0, s0), N0, K0)) == w0,
+                       z3.Implies(z3.And(0 <= T0, T0 < S, T0 != LENS(N0, s0)), ip.to_z3(y2.elem(T0, N0, K0)) == Y(T0, N0, s0)))
+        kept = z3.And(ip.to_z3(lens2.elem(N0, K0)) == LENS(N0, s0), ip.to_z3(last2.elem(N0, K0)) == lastc(s0), z3.Implies(z3.And(0 <= T0, T0 < S, T0 != LENS(N0, s0)), ip.to_z3(y2.elem(T0, N0, K0)) == Y(T0, N0, s0)))
+        return [("result_shapes", shapes),
+                ("slot_reports_its_source_and_kind", z3.Implies(real0, z3.And(ip.to_z3(src2.elem(N0, K0)) == s0, Bq(non2.elem(N0, K0)) == keep(idx0), 0 <= s0, s0 < KP, 0 <= w0, w0 < V))),
+                ("merging_sum_runs_over_the_old_beam", sm["T"] == KP),
+                ("merged_summand_is_the_matching_extension_or_zero", z3.Implies(z3.And(0 <= J0, J0 < KP, 0 <= K1, K1 < KP),
+                                                                             ip.to_z3(sm["val"]([N0, K1], J0)) == z3.If(exact(J0, K1), extmass(J0, tomatch(J0, K1)), z3.RealVal(0)))),
+                ("match_test_ranges_over_the_old_beam", an["n"] == KP),
+                ("match_test_element_is_equality_with_a_beam_prefix", z3.Implies(z3.And(0 <= A0, A0 < KP, 0 <= V0, V0 < V, 0 <= J0, J0 < KP),
+                                                                                Bq(el) == z3.And(exact(A0, J0), tomatch(A0, J0) == V0))),
+                ("kept_prefix_masses", z3.Implies(z3.And(real0, keep(idx0)), z3.And(z3.Not(f_nb), z3.Not(f_b), v_b == (NB(N0, s0) + B(N0, s0)) * BLANK(N0),
+                                                                                     v_nb == NB(N0, s0) * NONEXT(N0, lastc(s0)) + sm["S"](N0, s0, KP)))),
+                ("extended_prefix_masses", z3.Implies(z3.And(real0, z3.Not(keep(idx0))), z3.And(z3.Not(f_b), v_b == 0, f_nb == has_match, z3.Implies(z3.Not(has_match), v_nb == extmass(s0, w0))))),
+                ("kept_prefix_tokens", z3.Implies(z3.And(real0, keep(idx0)), kept)),
+                ("extended_prefix_tokens", z3.Implies(z3.And(real0, z3.Not(keep(idx0)), S >= 1), grown)),
+                # cut: the slot's total mass is the top-k value of the slot; then best-first is the contract's ordering
+                ("slot_total_is_the_selected_candidate_total", z3.Implies(real0, Bq(ct.ng_cmp("eq", tot(K0), tk["VAL"](N0, K0))))),
+                ("best_first_by_total_mass", z3.Implies(z3.And(real0, real1, K0 <= K1, Bq(ct.ng_cmp("eq", tot(K0), tk["VAL"](N0, K0))), Bq(ct.ng_cmp("eq", tot(K1), tk["VAL"](N0, K1))), tk["ordered"](N0, K0, K1)),
+                                                        Bq(ct.ng_cmp("ge", tot(K0), tot(K1))))),
+                ("different_slots_hold_different_candidates", z3.Implies(z3.And(real0, real1, K0 != K1), z3.Or(keep(idx0) != keep(idx1), srcof(idx0) != srcof(idx1), z3.And(z3.Not(keep(idx0)), tokof(idx0) != tokof(idx1))))),
+                ("slots_beyond_the_candidates_are_fillers", z3.Implies(z3.And(KK <= K0, K0 < W), z3.And(f_nb, f_b, ip.to_z3(lens2.elem(N0, K0)) == 0)))]
+
+    lens_ok = z3.ForAll([n_, k_], z3.Implies(z3.And(0 <= n_, n_ < N, 0 <= k_, k_ < KP), z3.And(0 <= LENS(n_, k_), LENS(n_, k_) <= S)))
+    pre = [N >= 1, KP >= 1, V >= 1, S >= 0, W >= 1, 0 <= N0, N0 < N, lens_ok]
+    return VC("C05.P.advance_step", name, M, "ctc_prefix_search_advance", thunk, pre=pre, posts=[("prefix_beam_recursion_step", post)], inputs={"N": N, "old_width": KP, "V": V, "S": S, "width": W},
+              timeout_ms=60000, max_paths=64,
+              assumptions=["topk over a symbolic extent (in-range pairwise distinct indices, value = element at the index, non-increasing, -inf smallest), sum = partial sums, any = exists: assumed contracts; tensors as index functions; flatten / view of two symbolic dimensions = row-major div / mod split (vf/pyvc/symtensor.py)",
+                           "prefix lengths within [0, S]; the incoming prefix relation is used as given (its consistency with the tokens is the S rung's precondition); float arithmetic treated as real arithmetic",
+                           "the new prefix-relation matrix and optimality against unselected candidates: S rung (contracts/C05_vc.py::adv_vc)"])
+
+
+def p_vcs(ctx):
+    return [adv_p_vc()]
+
+
 def vcs(ctx):
     shapes = [(1, 2, 1, (0,), 2), (2, 2, 1, (0, 1), 3), (2, 2, 2, (1, 2), 4), (2, 2, 1, (1, 1), 7)] if ctx.quick else \
         [(1, 2, 1, (0,), 2), (2, 2, 1, (0, 1), 3), (2, 2, 2, (1, 2), 4), (2, 2, 1, (1, 1), 7), (2, 2, 2, (2, 2), 3), (2, 2, 2, (0, 2), 6), (2, 3, 1, (0, 1), 4), (3, 2, 2, (0, 1, 2), 4)]
